@@ -18,8 +18,11 @@
    thread_random bits which count    count draws from an unseeded source (0 Uint::random,
                                      1 randomize, 2 rand 0.8 thread_rng().gen(), 3 rand 0.9
                                      rng().random(), 4 quickcheck Gen::new, 5 proptest default
-                                     runner with simplify steps): OR of the bits above BITS -> Z *)
+                                     runner with simplify steps): OR of the bits above BITS -> Z
+   approx_pow2 bits x b64            Uint::approx_pow2(f64::from_bits(x)); b64 = the observed
+                                     `(fract.exp2() * 2^63) as u64` (libm)  -> N | S L:limbs *)
 From RV.Model Require Import Base Word Conv Gen.
+From RV.Model Require ApproxPow2.
 
 Inductive call : Type :=
 | from_limbs (bits : Z) (l : list Z)
@@ -35,7 +38,8 @@ Inductive call : Type :=
 | arbitrary (bits : Z) (bytes : list Z)
 | proptest (bits : Z) (seed : Z) (arr : list Z)
 | quickcheck (bits : Z) (seed size : Z) (ws : list Z)
-| thread_random (bits : Z) (which count : Z).
+| thread_random (bits : Z) (which count : Z)
+| approx_pow2 (bits : Z) (x b64 : Z).
 
 Definition run (c : call) : result :=
   match c with
@@ -59,6 +63,9 @@ Definition run (c : call) : result :=
   | proptest bits _ arr => Val [TL arr; TL (proptest_map bits arr)]
   | quickcheck bits _ _ ws => do r <- quickcheck_arb bits ws ; Val [TL ws; TL r]
   | thread_random bits _ _ => Val [TZ 0]
+  | approx_pow2 bits x b64 =>
+      do r <- ApproxPow2.approx_pow2 bits x b64 ;
+      Val (match r with Some v => [TSome; TL v] | None => [TNone] end)
   end.
 
 Definition isbyte (b : Z) : Prop := 0 <= b < 256.
@@ -78,6 +85,7 @@ Definition wf (c : call) : Prop :=
   | proptest bits _ arr => 0 <= bits /\ length arr = nlimbsN bits /\ Forall inW arr
   | quickcheck bits _ _ ws => 0 <= bits /\ length ws = nlimbsN bits /\ Forall inW ws
   | thread_random bits _ _ => 0 <= bits
+  | approx_pow2 bits x b64 => 0 <= bits /\ inW x /\ inW b64
   end.
 Definition wfb (c : call) : bool :=
   match c with
@@ -93,6 +101,7 @@ Definition wfb (c : call) : bool :=
   | proptest bits _ arr => (0 <=? bits) && Nat.eqb (length arr) (nlimbsN bits) && forallb inWb arr
   | quickcheck bits _ _ ws => (0 <=? bits) && Nat.eqb (length ws) (nlimbsN bits) && forallb inWb ws
   | thread_random bits _ _ => 0 <=? bits
+  | approx_pow2 bits x b64 => (0 <=? bits) && inWb x && inWb b64
   end.
 
 (* ---- specification ---- *)
@@ -125,4 +134,7 @@ Definition spec (c : call) (o : result) : bool :=
   | proptest bits _ arr => expect o [TL arr; U bits (modp2 (eval arr) bits)]
   | quickcheck bits _ _ ws => expect o [TL ws; U bits (modp2 (eval ws) bits)]
   | thread_random bits _ _ => expect o [TZ 0]
+  | approx_pow2 bits _ _ =>
+      (* whatever the estimate is, a returned value is canonical (and the call never panics) *)
+      match o with Val [TNone] => true | Val [TSome; TL v] => canonb bits v | _ => false end
   end.
